@@ -248,7 +248,6 @@ func TestPropExtraKeysDoNotChangeKind(t *testing.T) {
 			mask &= rapid.IntRange(0, 1<<len(kindKeys)-1).Draw(t, "mask2")
 		}
 		typ := rapid.SampledFrom(typeValues).Draw(t, "type")
-		g := doc.NewG(t, doc.Config{Anchors: true, Timestamps: true, BigNums: true, Floats: true, EmptyKey: true, MergeKeyStr: true})
 		var kv []*yaml.Node
 		has := map[string]bool{}
 		for i, k := range kindKeys {
@@ -284,7 +283,10 @@ func TestPropExtraKeysDoNotChangeKind(t *testing.T) {
 			}
 			used[k] = true
 			extras++
-			kv = append(kv, doc.StrNode(k), g.Any(1))
+			// one generator per value: the pairs are shuffled afterwards, so an alias must never
+			// point into another pair (anchor names may repeat; an alias binds to the latest one before it)
+			vg := doc.NewG(t, doc.Config{Anchors: true, Timestamps: true, BigNums: true, Floats: true, EmptyKey: true, MergeKeyStr: true})
+			kv = append(kv, doc.StrNode(k), vg.Any(1))
 		}
 		// random key order (pairs)
 		idx := rapid.Permutation(seq(len(kv)/2)).Draw(t, "order")
@@ -296,7 +298,11 @@ func TestPropExtraKeysDoNotChangeKind(t *testing.T) {
 		root := doc.MapNode(false, doc.StrNode("steps"), doc.SeqNode(false, step))
 		d, err := doc.Render(root, 2, 20000)
 		if err != nil {
-			recExtra.Excluded("render-fault-or-outside")
+			e := err.Error()
+			if len(e) > 60 {
+				e = e[:60]
+			}
+			recExtra.Excluded("render-fault-or-outside: " + e)
 			return
 		}
 		wk, ws := expected(func(k string) bool { return has[k] }, typ, typ != "<absent>")
